@@ -109,6 +109,7 @@ pub fn w<R>(f: impl FnOnce(&mut World) -> R) -> R {
 }
 
 pub fn reset_world() {
+  hooks_disable();
   crate::cat::reset_handles();
   crate::h_subject::reset();
   // Dropping tasks may run rxRust destructors which call back into the world:
@@ -443,6 +444,18 @@ pub fn run_any_until_stalled(max_polls: usize) {
   }
 }
 
+/// Poll ready tasks in spawn order, at most `max_polls` polls; returns whether it stalled.
+pub fn run_fifo_bounded(max_polls: usize) -> bool {
+  for _ in 0..max_polls {
+    let r = ready_tasks();
+    if r.is_empty() {
+      return true;
+    }
+    poll_task(r[0]);
+  }
+  ready_tasks().is_empty()
+}
+
 /// Run ready tasks in spawn order (FIFO) until stalled.
 pub fn run_fifo_until_stalled(max_polls: usize) {
   let mut n = 0;
@@ -486,6 +499,11 @@ pub fn lock_monitor_enable() {
     t.pending = vec![VecDeque::new()];
   });
   verif_sync::set_lock_hook(Some(lock_hook));
+}
+
+/// yield points only (no logical threads)
+pub fn yield_enable() {
+  verif_sync::set_yield_hook(Some(yield_hook));
 }
 
 pub fn hooks_disable() {
